@@ -88,7 +88,9 @@ impl Prop for C16 {
             let Some(g) = g else {
                 return CaseOut { key: idx, nontrivial: false, outcome: "invalid_index".into(), ..Default::default() };
             };
-            let Some(v) = xform::nth(&g.prog, t) else {
+            // single-gap layout deviations: for the one-operation programs in the quick tier, for all in the thorough tier
+            let gaps = tier == Tier::Thorough || g.ops.len() <= 1;
+            let Some(v) = xform::nth_with(&g.prog, t, gaps) else {
                 return CaseOut { key: idx, nontrivial: false, outcome: "no_such_transformation".into(), ..Default::default() };
             };
             (g.source(), v, g.tags(), g.family, g.inputs)
@@ -126,6 +128,9 @@ impl Prop for C16 {
                 }
             }
         }
+        if std::env::var("VERIF_C16_DEBUG").is_ok() && tags.iter().any(|t| t == "line_break_before_postfix") && fails.is_empty() {
+            eprintln!("TAGGED-BUT-PASSES idx={idx} {} :: {}", v.what, v.source.replace('\n', "\\n"));
+        }
         CaseOut {
             key: fnv(v.source.as_bytes()),
             nontrivial,
@@ -133,7 +138,7 @@ impl Prop for C16 {
             fails,
             tags,
             repr: json!({"family": family, "transformation": v.kind, "what": v.what, "base_source": src, "transformed_source": v.source.chars().take(1500).collect::<String>()}),
-            counters: vec![(format!("kind_{}", v.kind), 1)],
+            counters: if idx < nfam && idx % TMAX == TMAX - 1 { vec![(format!("kind_{}", v.kind), 1), ("transformations_beyond_tmax".into(), 1)] } else { vec![(format!("kind_{}", v.kind), 1)] },
         }
     }
     fn describe_case(&self, tier: Tier, idx: u64) -> (Value, Vec<String>) {
@@ -143,7 +148,7 @@ impl Prop for C16 {
         }
         let (base, t) = (idx / TMAX, idx % TMAX);
         if let (_, Some(g)) = space(tier).get(base) {
-            if let Some(v) = xform::nth(&g.prog, t) {
+            if let Some(v) = xform::nth_with(&g.prog, t, tier == Tier::Thorough || g.ops.len() <= 1) {
                 let mut tags = g.tags();
                 tags.extend(v.tags);
                 return (json!({"transformation": v.kind, "what": v.what, "base_source": g.source()}), tags);
@@ -168,6 +173,10 @@ impl Prop for C16 {
         }
     }
     fn vacuity(&self, _t: Tier, c: &BTreeMap<String, u64>) -> Vec<String> {
-        ["kind_rename", "kind_parens", "kind_layout", "kind_annotation"].iter().filter(|k| c.get(**k).copied().unwrap_or(0) == 0).map(|k| format!("{k} empty")).collect()
+        let mut v: Vec<String> = ["kind_rename", "kind_parens", "kind_layout", "kind_gap", "kind_annotation"].iter().filter(|k| c.get(**k).copied().unwrap_or(0) == 0).map(|k| format!("{k} empty")).collect();
+        if c.get("transformations_beyond_tmax").copied().unwrap_or(0) > 0 {
+            v.push("a program has more transformations than TMAX: some were not explored".into());
+        }
+        v
     }
 }
